@@ -511,7 +511,16 @@ impl<R: Read + Seek> Read for MultiRangeReader<R> {
         
         let bytes_read = self.inner.read(&mut buf[..to_read])?;
         self.current_pos += bytes_read as u64;
-        
+
+        if bytes_read == 0 && to_read > 0 {
+            // the stream ended inside this range: continue with the next range instead of
+            // reporting end of data while ranges remain
+            if !self.next_range() {
+                return Ok(0);
+            }
+            return self.read(buf);
+        }
+
         Ok(bytes_read)
     }
 }
